@@ -6,6 +6,8 @@ import ast
 from typing import Any
 
 from ..astutil import annotation_nodes, parent_map, type_checking_nodes
+from ..cfg import cfg_of, walk_own
+from ..flow import occurred_before
 from ..report import Ctx
 from ..resolve import Resolver
 from ..schema import SOURCE_NAMES, Schema, load_schema
@@ -90,6 +92,55 @@ def r1(ctx: Ctx, sc: Schema) -> None:
             ok = isinstance(got, Ref) and got.kind == "pb" and got.name == want
             ctx.ob("C13.R1", fn, f"{norm(expr)} @ {param}={i}", ok, f"selects {got!r}, api.proto declares {want} with id {i}", node=expr)
 
+    # ... and what gets instantiated and parsed for a packet is the value looked up for this very packet (a class kept
+    # from an earlier packet, or selected any other way, is outside the table the rule above folds)
+    for fn, expr, param in lookups:
+        parses = [c for c in own_nodes(fn.node) if isinstance(c, ast.Call) and isinstance(c.func, ast.Attribute) and c.func.attr in ("MergeFromString", "ParseFromString")]
+        if not parses:
+            continue
+        for pc in parses:
+            recv = pc.func.value
+            ctors: list[ast.expr] = []
+            if isinstance(recv, ast.Name):
+                for st in own_nodes(fn.node):
+                    if isinstance(st, (ast.Assign, ast.AnnAssign)) and st.value is not None:
+                        tg = st.targets if isinstance(st, ast.Assign) else [st.target]
+                        if any(isinstance(t, ast.Name) and t.id == recv.id for t in tg):
+                            ctors.append(st.value)
+            elif isinstance(recv, ast.Call):
+                ctors.append(recv)
+            bad = []
+            for cv in ctors:
+                if not (isinstance(cv, ast.Call) and not cv.args and not cv.keywords):
+                    bad.append(f"{norm(cv)[:50]} is not an instantiation")
+                    continue
+                k = cv.func
+                if k is expr:
+                    continue
+                if isinstance(k, ast.Name):
+                    kdefs = []
+                    for st in own_nodes(fn.node):
+                        if isinstance(st, (ast.Assign, ast.AnnAssign)) and st.value is not None:
+                            tg = st.targets if isinstance(st, ast.Assign) else [st.target]
+                            if any(isinstance(t, ast.Name) and t.id == k.id for t in tg):
+                                kdefs.append(st.value)
+                        if isinstance(st, ast.NamedExpr) and st.target.id == k.id:
+                            kdefs.append(st.value)
+                    wrong = [d for d in kdefs if d is not expr]
+                    if wrong and all(isinstance(d, ast.Constant) and d.value is None for d in wrong):
+                        # a `k = None` initialisation (what the inliner leaves behind for a helper's result) is harmless
+                        # when the lookup has been executed on every path to the instantiation
+                        gfn = cfg_of(ctx, fn)
+                        defn = lambda n: ["lookup"] if n.ast is not None and n.kind == "stmt" and isinstance(n.ast, (ast.Assign, ast.AnnAssign)) and n.ast.value is expr else []
+                        ob_ = occurred_before(gfn, defn)
+                        inst_nodes = [n for n in gfn.reachable() if n.ast is not None and any(x is cv for x in walk_own(n.ast))]
+                        if inst_nodes and all("lookup" in ob_.get(n, frozenset()) for n in inst_nodes):
+                            wrong = []
+                    if wrong or not kdefs:
+                        bad.append(f"{k.id} = {[norm(d)[:50] for d in wrong] or 'no local definition'}")
+                else:
+                    bad.append(f"instantiates {norm(k)[:50]}")
+            ctx.ob("C13.R1", fn, f"the message parsed is an instance of the class looked up for this packet ({norm(expr)[:50]})", bool(ctors) and not bad, f"{bad}: the class does not (only) come from the positional lookup of this packet's type number", node=pc)
     inv = ctx.sym.resolve_name("connection", "PROTO_TO_MESSAGE_TYPE")
     if not isinstance(inv, dict):
         raise AnalysisError("connection.PROTO_TO_MESSAGE_TYPE does not fold")
@@ -287,6 +338,38 @@ def r34(ctx: Ctx, sc: Schema) -> None:
                 ctx.ob("C13.R4", wkey, f"{cls} used as subscription/response type", ok, f"{cls} is {src} (id {mid}): the device never sends it", node=n)
             elif role == "unclassified":
                 raise AnalysisError(f"{modname}: load of api_pb2 class {n.id} at line {n.lineno} fits no known role: {norm(pm.get(n))[:80]}")
+    # value level: what every registration call actually passes as message types (after folding constants, starred
+    # tuples and module-level tables) - a set computed some other way than by naming the classes is not seen by the
+    # load-site rule above
+    from .c16 import fold_types
+
+    conn_cls = ctx.repo.cls("APIConnection")
+    n_reg = 0
+    for fn in ctx.repo.all_funcs():
+        for c in own_nodes(fn.node):
+            if not isinstance(c, ast.Call):
+                continue
+            callees = [f for f in res.callees(fn, c).funcs if f.cls is not None and f.cls.key == conn_cls.key and "msg_types" in f.param_names()]
+            if not callees:
+                continue
+            e = res.bind_args(callees[0], c).get("msg_types")
+            if e is None:
+                continue
+            names = fold_types(ctx, fn, e)
+            n_reg += 1
+            if names is None:
+                why = _computed(ctx, fn, e)
+                if why is None:
+                    ctx.note(f"{fn.qualname}: {norm(e)[:40]} is assembled from classes named on the spot (judged by the load-site rule)")
+                    continue
+                ctx.ob("C13.R4", fn, f"{norm(c.func)[-40:]}: subscribed types are a foldable set of api_pb2 classes", False, f"{norm(e)[:60]}: {why} - what is subscribed to is computed, not named, and cannot be decided", node=c)
+                continue
+            for nm in names:
+                if nm.startswith("<"):
+                    continue  # the caller's own parameter: judged at its call sites
+                ok = nm in sc.desc.messages and sc.id_of(nm) is not None and sc.source_of(nm) in ("SOURCE_SERVER", "SOURCE_BOTH")
+                ctx.ob("C13.R4", fn, f"{norm(c.func)[-40:]}: {nm} is a type the device sends", ok, f"{nm} is {sc.source_of(nm) if nm in sc.desc.messages else 'not a message of api.proto'}", node=c)
+    ctx.count("C13.R4.calls", n_reg, 20, "registration calls with a message-type set")
     ctx.analysed["pb_class_load_roles"] = roles_count
     ctx.count("C13.R3", n_inst, 56, "instantiation sites of api_pb2 classes")
     ctx.count("C13.R4", n_type, 60, "api_pb2 classes used as subscription/response types")
@@ -303,6 +386,9 @@ def classify(n: ast.Name, pm: dict, ann: set, tc: set, modname: str, where: Func
     if isinstance(p, ast.Compare):
         return "comparison"
     if isinstance(p, ast.Call) and isinstance(p.func, ast.Name) and p.func.id in ("isinstance", "issubclass", "cast"):
+        return "comparison"
+    if isinstance(p, ast.Subscript) and p.slice is n and isinstance(p.ctx, ast.Load):
+        # TABLE[Class] read - a lookup by class, neither sent nor subscribed
         return "comparison"
     if isinstance(p, ast.Attribute) and p.value is n:
         # Class.attr (e.g. __name__, DESCRIPTOR) - neither sent nor subscribed
@@ -323,3 +409,43 @@ def classify(n: ast.Name, pm: dict, ann: set, tc: set, modname: str, where: Func
     if isinstance(p, (ast.Tuple, ast.List, ast.Set, ast.Dict, ast.Call, ast.Starred, ast.keyword, ast.Assign, ast.Return, ast.IfExp)):
         return "typevalue"
     return "unclassified"
+
+
+def _computed(ctx: Ctx, fn: Func, e: ast.expr, depth: int = 0) -> str | None:
+    """None when the expression is put together from names of classes / foldable constants / the function's own
+    parameters (tuples, lists, starred, tuple()/list() of those, locals assigned or appended to that way);
+    otherwise what makes it a computed selection."""
+    if depth > 6:
+        return "too deep"
+    if isinstance(e, (ast.Tuple, ast.List, ast.Set)):
+        for el in e.elts:
+            w = _computed(ctx, fn, el.value if isinstance(el, ast.Starred) else el, depth + 1)
+            if w:
+                return w
+        return None
+    if isinstance(e, ast.Call) and isinstance(e.func, ast.Name) and e.func.id in ("tuple", "list", "set", "frozenset") and len(e.args) == 1 and not e.keywords:
+        return _computed(ctx, fn, e.args[0], depth + 1)
+    if isinstance(e, ast.Name):
+        if e.id in fn.param_names():
+            return None
+        srcs: list[ast.expr] = []
+        for n in own_nodes(fn.node):
+            if isinstance(n, (ast.Assign, ast.AnnAssign)) and n.value is not None:
+                tg = n.targets if isinstance(n, ast.Assign) else [n.target]
+                if any(isinstance(t, ast.Name) and t.id == e.id for t in tg):
+                    srcs.append(n.value)
+            if isinstance(n, ast.Call) and isinstance(n.func, ast.Attribute) and isinstance(n.func.value, ast.Name) and n.func.value.id == e.id and n.func.attr in ("append", "extend", "add") and n.args:
+                srcs.append(n.args[0])
+        if srcs:
+            for v in srcs:
+                w = _computed(ctx, fn, v, depth + 1)
+                if w:
+                    return w
+            return None
+        v = ctx.sym.resolve_name(fn.module.name, e.id)
+        if isinstance(v, Ref) or (isinstance(v, tuple) and all(isinstance(x, Ref) for x in v)):
+            return None
+        return f"`{e.id}` does not fold to a tuple of classes"
+    if isinstance(e, (ast.GeneratorExp, ast.ListComp, ast.SetComp, ast.DictComp)):
+        return "comprehension"
+    return f"`{norm(e)[:40]}`"
